@@ -266,7 +266,7 @@ def run_property(prop, tier, seed):
             if sts and all(st == "vacuous" for st in sts):
                 lines.append(f"CHECKER-ERROR property={prop} vacuous hypotheses on every returning path of {rep.qual}[{case}]")
                 errors += 1
-        if nf == 0:
+        if nf == 0 and not rep.aborts:
             lines.append(f"CHECKER-ERROR property={prop} zero obligations generated for {rep.qual}")
             errors += 1
         for lab, st in labels.items():
@@ -317,6 +317,14 @@ def run_property(prop, tier, seed):
             known_hits.append(f"KNOWN-FINDING: property={prop} {k['what']} [obligation {lab}]")
             continue
         base = baseline.get(getattr(rep, "bkey", rep.qual), {})
+        if hasattr(rep, "bkey"):
+            # obligations of a provider may be attributed to another function when the code changes: look the label up
+            # in everything that provider discharged on the reference tree
+            prov = rep.bkey.split("@", 1)[1]
+            base = {}
+            for k_, v_ in baseline.items():
+                if k_.endswith("@" + prov):
+                    base.update(v_)
         # counterexample: a stand-in failure of a check that exercises this function
         cex = [f for f in st_fail if rep.qual in checks[f["check"]].funcs and not known_match(known, "standin", f["check"], f["sig"])]
         path = os.path.join(REPLAY_DIR, f"{prop}-obl-{zlib.crc32(lab.encode()):08x}.json")
